@@ -103,6 +103,9 @@ func (p TmplPlacement) Build(f Fault) map[string]string {
 // faults that need package-level declarations are left to the programs.
 func TmplFaultOK(f Fault) bool { return f.Decls == "" && !f.NoTmpl }
 
+// ProgFaultOK reports whether the fault can be placed in a program.
+func ProgFaultOK(f Fault) bool { return !f.TmplOnly }
+
 // ---------------------------------------------------------------------------
 // Context × value matrix.
 
@@ -304,6 +307,11 @@ func init() {
 	addValue("time_ptr", func() any { t := time.Unix(0, 0).UTC(); return &t })
 	addValue("time_ptr_nil", func() any { return (*time.Time)(nil) })
 	addValue("duration", func() any { return 90 * time.Second })
+	addValue("cyclic_pointer", func() any { n := &person{Name: "c"}; n.Next = n; return n })
+	addValue("cyclic_pointer_2", func() any { a := &person{Name: "a"}; b := &person{Name: "b", Next: a}; a.Next = b; return *a })
+	addValue("cyclic_map", func() any { m := map[string]any{"a": 1}; m["self"] = m; return m })
+	addValue("cyclic_slice", func() any { s := []any{1, nil}; s[1] = s; return s })
+	addValue("cyclic_any_field", func() any { n := &person{Name: "x"}; n.Any = []any{map[string]any{"p": n}}; return n })
 	addValue("nested_deep", func() any {
 		var v any = "x"
 		for i := 0; i < 50; i++ {
